@@ -156,3 +156,18 @@ mod sync;
 
 #[cfg(feature = "_externalize_tests")]
 lightning_macros::xtest_inventory!();
+
+// verification hook: re-exports the out-of-tree contract modules for the native replay binary of /verif
+#[cfg(ldk_verif)]
+#[allow(missing_docs)]
+pub mod verif_api {
+	pub use crate::chain::package::verif_contracts as package;
+	pub use crate::ln::chan_utils::verif_contracts as chan_utils;
+	pub use crate::ln::inbound_payment::verif_contracts as inbound_payment;
+	pub use crate::ln::msgs::verif_contracts as msgs;
+	pub use crate::ln::onion_utils::verif_contracts as onion_utils;
+	pub use crate::ln::wire::verif_contracts as wire;
+	pub use crate::routing::router::verif_contracts as router;
+	pub use crate::sign::tx_builder::verif_contracts as tx_builder;
+	pub use crate::util::ser::verif_contracts as ser;
+}
